@@ -79,6 +79,7 @@ def run(pid, tier, seed):
              b"Nope/Missing", b"", b"Dir", b"Unreadable", b"Truncated", b"Appended1", b"Appended2", b"TruncNL", b"TruncFooter", b"TruncNoFooter", b"TruncMidRule", b"Garbage", b"Empty", b"RightSlim", b"RightFat", b"BadFooter", b"V1",
              b":X", b":America/New_York", b"UTC", b"UTC0", b"Fixed/UTC+01:00:00", b"Fixed/UTC-23:59:59", b"Fixed/UTC+24:00:01",
              b"file:", b"file:/", b"/", b"/nonexistent/zone", b"file:UTC", b"localtime", b"x/../X", b"America/New_York/", b"X ", b" X",
+             b"America//New_York", b"./X", b"X/.", b"America/./New_York", b"A" * 5000, b"X" + b"/" * 300, b"..", b".", b"America", b"America/",
              (tzdir + "/X").encode(), b"file:" + (tzdir + "/Garbage").encode(), b"Etc/UTC", b"posixrules"]
     nf = os.path.join(work, "names.txt")
     open(nf, "w").write("".join(n.hex() + "\n" for n in names))
